@@ -328,3 +328,55 @@ def nodesL : List Item → Nat
 end
 
 end GoSecs.Secs2
+
+namespace GoSecs.Secs2
+
+/-! ### Allocation cost: bytes requested from `make` whose size derives from lengths the INPUT claims
+
+  Mirrors decode.go: `make([]Item, 0, length)` for a list (16-byte interface slots, after the
+  child-count pre-check), `make([]int64|uint64|float64, count)` for numeric payloads, `make([]bool, n)`
+  for booleans; ASCII/JIS-8/binary/localized payloads alias the owned buffer (no allocation).
+  Fixed per-item struct overhead (slab chunks) is O(1) per decoded item and is not input-claimed. -/
+
+def allocLeaf (fc n : Nat) (r : Bytes) : Nat :=
+  match decLeaf fc n r with
+  | .error _ => 0
+  | .ok (.boolean _, _) => n
+  | .ok (.int w _, _) => 8 * (n / w.bytes)
+  | .ok (.uint w _, _) => 8 * (n / w.bytes)
+  | .ok (.float w _, _) => 8 * (n / w.bytes)
+  | .ok _ => 0
+
+mutual
+def allocDec : Nat → Nat → Bytes → Nat
+  | 0, _, _ => 0
+  | fuel+1, depth, bs =>
+    match bs with
+    | [] => 0
+    | fb :: r1 =>
+      let fc := fb.toNat / 4
+      let k := fb.toNat % 4
+      if k = 0 then 0
+      else if lenLt r1 k then 0
+      else
+        let n := beVal (r1.take k)
+        let r2 := r1.drop k
+        if fc = fcList then
+          if depth + 1 > maxListDepth then 0
+          else if lenLt r2 (n * 2) then 0
+          else 16 * n + allocDecL fuel (depth + 1) n r2
+        else allocLeaf fc n r2
+def allocDecL : Nat → Nat → Nat → Bytes → Nat
+  | 0, _, _, _ => 0
+  | _+1, _, 0, _ => 0
+  | fuel+1, depth, c+1, bs =>
+    allocDec fuel depth bs +
+      (match dec fuel depth bs with
+       | .error _ => 0
+       | .ok (_, r) => allocDecL fuel depth c r)
+end
+
+/-- `Decode`: the defensive clone of the input plus everything `decodeItem` allocates. -/
+def allocDecode (bs : Bytes) : Nat := bs.length + allocDec (fuelFor bs) 0 bs
+
+end GoSecs.Secs2
